@@ -66,7 +66,7 @@ func Step(r *cq.RNG) {
 
 func one(r *cq.RNG) {
 	defer func() { _ = recover() }()
-	k := r.Intn(14)
+	k := r.Intn(15)
 	// under the harness watchdog: a library call that does not return is reported, not waited for
 	cases.Begin(fmt.Sprintf("unrelated-call-%d", k), map[string]interface{}{"where": "internal/noise action " + fmt.Sprint(k)})
 	defer cases.End()
@@ -212,6 +212,55 @@ func one(r *cq.RNG) {
 		_, _ = lorawan.EncryptFRMPayload(k, true, d, f, r.Bytes(20))
 		_, _ = lorawan.EncryptFRMPayload(k, false, d, f, r.Bytes(20))
 		_, _ = lorawan.EncryptFRMPayload(k, true, d, f^0x10000, r.Bytes(20))
+	case 13: // what an encoder returns belongs to the caller: append to it and overwrite it
+		spoil := func(b []byte, err error) {
+			if err != nil {
+				return
+			}
+			b = append(b, 0xa5, 0x5a, 0xff, 0x00, 0xa5, 0x5a, 0xff, 0x00)
+			b = b[:cap(b)]
+			for i := range b {
+				b[i] ^= 0xff
+			}
+		}
+		p := frame(r)
+		spoil(p.MHDR.MarshalBinary())
+		spoil(p.MarshalBinary())
+		spoil(p.MarshalText())
+		if m, ok := p.MACPayload.(*lorawan.MACPayload); ok {
+			spoil(m.MarshalBinary())
+			spoil(m.FHDR.MarshalBinary())
+			spoil(m.FHDR.FCtrl.MarshalBinary())
+			spoil(m.FHDR.DevAddr.MarshalBinary())
+			spoil(m.FHDR.DevAddr.MarshalText())
+			for _, c := range m.FHDR.FOpts {
+				spoil(c.MarshalBinary())
+			}
+		}
+		j := framefmt.JoinFrame(r, r.Intn(5))
+		spoil(j.MACPayload.MarshalBinary())
+		spoil(j.MHDR.MarshalBinary())
+		if ja, ok := j.MACPayload.(*lorawan.JoinAcceptPayload); ok {
+			spoil(ja.DLSettings.MarshalBinary())
+			spoil(ja.HomeNetID.MarshalBinary())
+			spoil(ja.JoinNonce.MarshalBinary())
+			if ja.CFList != nil {
+				spoil(ja.CFList.MarshalBinary())
+			}
+		}
+		var e lorawan.EUI64
+		copy(e[:], r.Bytes(8))
+		spoil(e.MarshalBinary())
+		spoil(e.MarshalText())
+		k := key(r)
+		spoil(k.MarshalBinary())
+		spoil(k.MarshalText())
+		for _, c := range framefmt.ValidCmds(r, r.Bool(), 10) {
+			spoil(c.MarshalBinary())
+			if mc, ok := c.(*lorawan.MACCommand); ok && mc.Payload != nil {
+				spoil(mc.Payload.MarshalBinary())
+			}
+		}
 	default: // text forms
 		p := frame(r)
 		if t, err := p.MarshalText(); err == nil {
